@@ -17,6 +17,7 @@ import NgoVerif.DriverDuplication
 import NgoVerif.DriverSumRewrite
 import NgoVerif.DriverMathSimp
 import NgoVerif.DriverSem
+import NgoVerif.DriverInline
 /-!
 # Line-protocol driver: one s-expression request per line on stdin, one s-expression answer per line on stdout.
 
@@ -63,7 +64,7 @@ def runMakeUnique (u : UniqueVars) : List Sexp → List String → Option (List 
   | _, _ => none
 
 /-- handlers contributed by the per-pass driver files; tried in order -/
-def extHandlers : List (Sexp → Option Sexp) := [handleCleanup, handleBinding, handleNormalize, handleSumAgg, handleDependency, handleUnused, handleMinMax, handleSymmetry, handleDuplication, handleSumRewrite, handleMathSimp, handleSem]
+def extHandlers : List (Sexp → Option Sexp) := [handleCleanup, handleBinding, handleNormalize, handleSumAgg, handleDependency, handleUnused, handleMinMax, handleSymmetry, handleDuplication, handleSumRewrite, handleMathSimp, handleSem, handleInline]
 
 def tryExt (req : Sexp) : List (Sexp → Option Sexp) → Sexp
   | [] => unsupported "unknown op"
